@@ -2239,6 +2239,19 @@ def explore_c11(ctx, res, replay_ops=None):
             if "hang" in fu3 or any(x[:1] == "5" for x in fu3.split("/")):
                 res.violation("oracle", "C11: the session opened by the (accepted) raw create was then updated and released with the same body: answered %s" % fu3,
                               [op, "# impl: " + im])
+    # --- well-formed requests in histories (accounts that run out, are overdrawn, recharged; several sessions; FINAL reports): none
+    #     may be answered 5xx, whatever the account-balance and rating servers answer
+    if replay_ops is None or any(o.startswith("chf ") for o in replay_ops):
+        rc = chf_run(ctx, res, n_for(ctx, 400, 4000), replay_ops)
+        for i, (op, im) in enumerate(zip(rc.ops, rc.impl)):
+            if op.split()[1] in ("create", "update", "release", "recharge"):
+                res.evaluations += 1
+                m5 = re.match(r"st=(5\d\d|0)\b", im)
+                if m5 or im.split(" ")[0] in ("panic", "crash", "hang"):
+                    res.violation("oracle", "C11: a well-formed request of a charging history was answered %s" % (m5.group(1) if m5 else im.split(" ")[0]),
+                                  _chf_history(rc.ops, i) + ["# impl: " + strip_annot(im)[:400]])
+                    break
+                res.traces_validated += 1
     # --- long sessions: requests that cross the 65535-octet record limit (the record is split), among them one that is also the
     #     session's first online report with a trigger (a partial record is cut by the same request)
     if replay_ops is None or any(o.startswith("cdrsize ") for o in replay_ops):
